@@ -316,8 +316,8 @@ def _handle_close_nodes(ctx, aclose: Unit, cfg, src: str) -> Set[Node]:
             it = n.info["iter"]
             if isinstance(it, ast.Attribute) or isinstance(it, ast.Name):
                 out.add(n)
-        elif n.kind == "await" and ownership._is_aclose_await(ctx, aclose, n, src) \
-                and not n.in_loop():
+        elif n.kind == "await" and (ownership._is_aclose_await(ctx, aclose, n, src)
+                                    or ownership._is_close_helper_await(ctx, aclose, n, src)) and not n.in_loop():
             out.add(n)
     return out
 
@@ -431,7 +431,8 @@ def r04_5(ctx) -> None:
             if n.kind == "del" and any(isinstance(t, ast.Subscript) and isinstance(t.value, ast.Name)
                                        and t.value.id == peers_name for t in n.info.get("targets", [])):
                 removals.add(n)
-        closes = {n for n in nodes if ownership._is_aclose_await(ctx, u, n, src)}
+        closes = {n for n in nodes if ownership._is_aclose_await(ctx, u, n, src)
+                  or ownership._is_close_helper_await(ctx, u, n, src)}
         empty_edge = _emptiness_tests(ctx, u, cfg, nodes, peers_name)
         tests = set(empty_edge)
         # (a) the removal is by identity with the child's own buffer
